@@ -1,6 +1,6 @@
 from props import cfg
 
-CFG = cfg('C11', refine=['Refine_armor'], extract='Ex_C11', driver='c11',
+CFG = cfg('C11', refine=['Refine_armor', 'Refine_cleartext'], extract='Ex_C11', driver='c11',
           rule='texts = fixed adversarial list + every text over {-, SP, LF, CR, a, TAB} up to length 5 (quick) / 6 (thorough) + random texts built from '
                '"-", "- ", "From ", armor-looking lines, Hash: lines, blanks, empty lines, LF / CRLF / CR endings, with / without final newline, non-ASCII, non-BMP, '
                '10 kB lines: dash_escape / dash_unescape / signed octets (through PGPSignature.hashdata) against model and RFC 7.1 transcription; full flow '
